@@ -29,7 +29,7 @@ COMPONENTS = {"real": ["BasePrimary.to/_parse_to/register_buffer, all shorthands
               "stub": ["reference state machine of the declared dtype"]}
 ASSUMPTIONS = ["device fixed to CPU", "for float16/bfloat16 only dtypes are checked and exceptions from missing CPU kernels are tolerated (counted)",
                "after a global default change with declared dtype None nothing is asserted about existing buffers until the next simulate"]
-PROBES = ["cast_after_simulate", "resim_after_cast", "to_instrument", "to_tensor", "rejected_non_floating", "default_flip",
+PROBES = ["cast_through_a_two_underlier_derivative", "cast_after_simulate", "resim_after_cast", "to_instrument", "to_tensor", "rejected_non_floating", "default_flip",
           "half_tolerated_exception", "register_buffer", "derivative_alias", "computed_outputs_checked", "loss_price_checked", "register_non_floating_buffer"]
 F = {"f16": torch.float16, "bf16": torch.bfloat16, "f32": torch.float32, "f64": torch.float64}
 
@@ -57,7 +57,15 @@ def generate(rng):
     for _ in range(n):
         a = rng.wchoice([(x, 3 if x in ("simulate", "simulate_derivative") else 1) for x in ALPHABET])
         ops.append({"op": a, "torch_seed": rng.seed31(), "n_paths": rng.choice([1, 2, 3])})
-    return {"profile": "c17", "env": {"default_dtype": rng.choice(["float32", "float32", "float64"])}, "world": world, "ops": ops}
+    prog = {"profile": "c17", "env": {"default_dtype": rng.choice(["float32", "float32", "float64"])}, "world": world, "ops": ops}
+    if rng.chance(0.3):
+        # a user derivative on two stocks, a second derivative on one of them; casts arrive through either derivative or
+        # directly at a stock, in any order: a cast through the spread reaches both stocks
+        who = ["spread", "spread", "first", "second", "option_on_second"]
+        prog["spread_casts"] = [{"who": rng.choice(who), "dtype": rng.choice(["float32", "float64", "float32", "float64", "bfloat16"]),
+                                 "form": rng.choice(["to", "method"])} for _ in range(rng.randint(3, 7))]
+        prog["spread_seed"] = rng.seed31()
+    return prog
 
 
 def execute(program):
@@ -71,6 +79,51 @@ def execute(program):
 
 def _tolerable(e, half):
     return half and isinstance(e, (RuntimeError, NotImplementedError, TypeError, ValueError))
+
+
+def _spread_casts(program, stats, hist):
+    import pfhedge.instruments as pfi
+
+    class Spread(pfi.BaseDerivative):
+        def __init__(self, a, b):
+            super().__init__()
+            self.register_underlier("first", a)
+            self.register_underlier("second", b)
+            self.maturity = 5 / 250
+
+        def payoff_fn(self):
+            return self.ul(0).spot[..., -1] - self.ul(1).spot[..., -1]
+    first, second = pfi.BrownianStock(), pfi.BrownianStock(sigma=0.3)
+    spread, opt = Spread(first, second), pfi.EuropeanOption(second, maturity=5 / 250)
+    decl = {"first": None, "second": None}
+    names = []
+    for c in program["spread_casts"]:
+        seq = hist.seq
+        dt = DT[c["dtype"]]
+        tgt = {"spread": spread, "first": first, "second": second, "option_on_second": opt}[c["who"]]
+        stats.op("spread_cast")
+        names.append("%s.%s" % (c["who"], c["dtype"]))
+        if c["form"] == "method" and c["dtype"] in ("float32", "float64"):
+            (tgt.float if c["dtype"] == "float32" else tgt.double)()
+        else:
+            tgt.to(dt)
+        for k_ in ({"spread": ("first", "second"), "first": ("first",), "second": ("second",), "option_on_second": ("second",)}[c["who"]]):
+            decl[k_] = dt
+        stats.checks += 1
+        stats.probe("cast_through_a_two_underlier_derivative")
+        got = {"first": first.dtype, "second": second.dtype}
+        if got != decl:
+            raise Violation(ID, "cast_not_forwarded", "two-underlier derivative", {
+                "sequence": names, "declared": {k_: str(v_) for k_, v_ in got.items()}, "expected": {k_: str(v_) for k_, v_ in decl.items()}}, seq)
+        hist.add(op="spread_cast", who=c["who"], dtype=c["dtype"])
+    if decl["first"] in (torch.float32, torch.float64) and decl["second"] in (torch.float32, torch.float64):
+        torch.manual_seed(program["spread_seed"])
+        spread.simulate(n_paths=2)
+        for k_, st_ in (("first", first), ("second", second)):
+            stats.checks += 1
+            if st_.spot.dtype != decl[k_]:
+                raise Violation(ID, "buffer_dtype", "two-underlier derivative.simulate", {
+                    "stock": k_, "dtype": str(st_.spot.dtype), "declared": str(decl[k_]), "sequence": names}, hist.seq)
 
 
 def _execute(program, stats, hist):
@@ -95,6 +148,8 @@ def _execute(program, stats, hist):
     hazard = False
     kept_hedger = pfn.Hedger(pfn.Naked(), ["zeros", "prev_hedge"])   # keeps its recurrent buffer between operations
     unknown_old = False   # after a default flip with declared None: old buffers are not judged
+    if program.get("spread_casts"):
+        _spread_casts(program, stats, hist)
     for op in program["ops"]:
         seq = hist.seq
         a = op["op"]
